@@ -262,6 +262,7 @@ def handler (prop : String) : Handler := fun op args impl =>
       | "C10" => oracleC10 op args impl
       | "C11" => oracleC11 op args impl
       | "C12" => oracleC12 op args impl
+      | "C17" => oracleC17 args impl
       | _ => ("na", "")
     some (m, o, t)
 
